@@ -76,6 +76,15 @@ def make_world(log, placement):
 
         @func_adl_callable(fproc)
         def MySqrt(x: float, scale: float = 2.0) -> float: ...
+
+        def fproc2(s, a):
+            # a processor that REPLACES the call node (repaired defect: lost, together with the
+            # filled-in default, when the call is the whole body of a nested lambda)
+            log.append(("function", ast.unparse(a)))
+            return s.MetaData({"cb": "function"}), ast.Call(ast.Name("MyCal_be", ast.Load()), a.args, a.keywords)
+
+        @func_adl_callable(fproc2)
+        def MyCal(x: float, scale: float = 2.0) -> float: ...
     return Event, Jet, Track
 
 
@@ -101,6 +110,10 @@ QUERIES = [
     ("Where", "lambda e: e.Jets().Where(filter=lambda j: MySqrt(j.eta()) > 1).Count() > 0"),
     ("Select", "lambda e: 1"),
     ("Select", "lambda e: e.other.pt()"),
+    ("Select", "lambda e: MyCal(e.met())"),
+    ("Select", "lambda e: e.Jets().Select(lambda j: MyCal(j.eta()))"),
+    ("Select", "lambda e: e.Jets().Select(lambda j: MyCal(j.eta(), scale=3.0) + 1)"),
+    ("Where", "lambda e: e.Jets().Where(lambda j: MyCal(j.eta()) > 1).Count() > 0"),
     # a callback that replaces an existing argument, at the top and inside nested lambdas
     ("Select", "lambda e: e.lead().attr('x')"),
     ("Select", "lambda e: e.Jets().Select(lambda j: j.attr('x'))"),
@@ -249,7 +262,7 @@ def expected_sites(src, placement):
             for a in n.args:
                 ty(a, env)
             return None
-        if isinstance(n, ast.Call) and isinstance(n.func, ast.Name) and n.func.id == "MySqrt":
+        if isinstance(n, ast.Call) and isinstance(n.func, ast.Name) and n.func.id in ("MySqrt", "MyCal"):
             for a in n.args:
                 ty(a, env)
             for k in n.keywords:
@@ -298,7 +311,7 @@ def run(t):
                     return a
             ds = DS(Event)
             key = f"C09:{sorted(placement)}:{op}:{src}"
-            if "MySqrt" in src and "function" not in placement:
+            if ("MySqrt" in src or "MyCal" in src) and "function" not in placement:
                 continue
             exp = expected_sites(src, placement)
             t.case(key, len(exp) > 0, sample=key)
@@ -346,6 +359,13 @@ def run(t):
                     t.violation("process_method_callbacks:ensures the returned call node is emitted",
                                 "rewrite returned by the method callback is not in the query", key,
                                 "…pt_calib()…", text, rp)
+            if "MyCal" in src:
+                t.contract("rewrite returned by a function processor is emitted, defaults filled")
+                if "MyCal(" in text or "MyCal_be(" not in text or \
+                        ("scale" not in src and ", 2.0)" not in text):
+                    t.violation("process_function_call:ensures the returned call node is emitted",
+                                "the rewrite returned by the function's processor (or the default "
+                                "it was given) is not in the query", key, "…MyCal_be(…, 2.0)…", text, rp)
             if "Jet.attr-method" in exp:
                 t.contract("returned rewrite of an existing argument is emitted")
                 if "attr('x')" in text or "attr('x_fixed')" not in text:
